@@ -504,6 +504,7 @@ def run(ctx):
     n = r_tabletype(ctx)
     r_bypass(ctx)
     from . import genprog
+    genprog.r_reader(ctx)
     genprog.r_generators(ctx, {"table"})   # the generators unrolled on lists with repeated points: rows / columns / cells / names of the stored tables
     ctx.floor("stores into the tables attribute", n, 3)
 
